@@ -18,5 +18,23 @@ if [ "$ID" = "replay" ]; then
   "$TMP/verif" replay "$2"
   exit $?
 fi
+# Non-deciding audit for the schedule-search checks: the same client programs on real
+# goroutines against the un-instrumented code under the race detector (the exploration is
+# complete only for data-race-free code).
+case "$ID" in C05|C09|C10|C14|C17|C18)
+  ITER=60; [ "$TIER" = thorough ] && ITER=600
+  if (cd "$ROOT/engine" && GOFLAGS=-mod=mod GOPROXY=off GOSUMDB=off GOTOOLCHAIN=local go build -race -o "$TMP/racepass" ./cmd/racepass) >"$TMP/race-build.log" 2>&1; then
+    RA="$(GORACE="halt_on_error=1 exitcode=66" timeout 300 "$TMP/racepass" $ITER 2>"$TMP/race.log" | tail -1)"
+    RC=$?
+    if grep -q "DATA RACE" "$TMP/race.log"; then
+      echo "RACE-AUDIT: the race detector fired in the free-running pass (schedule-point exploration assumes race freedom); report kept in evidence/$ID.race.txt"
+      cp "$TMP/race.log" "$ROOT/evidence/$ID.race.txt" 2>/dev/null
+      RA="race-audit: DATA RACE reported, see evidence/$ID.race.txt"
+    fi
+    export VERIF_RACE_AUDIT="${RA:-race-audit: did not complete}"
+  else
+    export VERIF_RACE_AUDIT="race-audit: build failed"
+  fi ;;
+esac
 "$TMP/verif" run "$ID" "$TIER"
 exit $?
